@@ -263,12 +263,24 @@ def concrete(family, params):
         rng = random.Random(params.get("seed", 0) + 17)
         worst = 0.0
         detail = None
-        for trial in range(12):
+        from ..run import model_float
+
+        model = params.get("_model") or {}
+        for trial in range(16):
             x = [rng.uniform(-1, 1) for _ in range(3)]
             nx = [rng.uniform(-1, 1) for _ in range(3)]
             ys = [[rng.uniform(-1, 1) + 2.5 for _ in range(3)] for _ in range(width)]
             nys = [[rng.uniform(-1, 1) for _ in range(3)] for _ in range(width)]
-            kp = [rng.uniform(0.2, 3), 0.0 if trial % 2 == 0 else rng.uniform(0.1, 2)]
+            kp = [rng.uniform(-3, 3), [0.0, rng.uniform(0.1, 2), -rng.uniform(0.1, 2), rng.uniform(-2, 2)][trial % 4]]
+            if trial == 0 and model:
+                # first trial: the solver's counterexample itself (inputs only; abstracted function values are recomputed)
+                x = [model_float(model.get("x%d" % i), x[i]) for i in range(3)]
+                nx = [model_float(model.get("nx%d" % i), nx[i]) for i in range(3)]
+                ys = [[model_float(model.get("y%d_%d" % (l, i)), ys[l][i]) for i in range(3)] for l in range(width)]
+                nys = [[model_float(model.get("ny%d_%d" % (l, i)), nys[l][i]) for i in range(3)] for l in range(width)]
+                kp = [model_float(model.get("k0"), kp[0]), model_float(model.get("k1"), kp[1])]
+                if any(sum((a - c) ** 2 for a, c in zip(x, yl)) < 1e-12 for yl in ys):
+                    continue
             nout = 6 if mode == "gradient" else 2
             if width == 1:
                 out = llir.Mem(nout, [0.0] * nout)
